@@ -19,6 +19,10 @@ CURATED_TEXT = {
 'follow_thru': "token A B C D E; start s; s: x D | E; x: A y; y: [B] [C];",
 'deep': "token A B C D Ws; skip Ws; start s; s: a; a: A b | b; b: B c*; c: C [D];",
 'recursive': "token L R A; start s; s: x; x: L x R | A;",
+'rec_tail_star': "token L R N B; start s; s: e; e: L e R | N B*;",
+'rec_tail_opt': "token L R N B C; start s; s: e C; e: L e R | N [B];",
+'rec_tail_plus_mid': "token L R N B; start s; s: e; e: N B+ | L e R;",
+'rec_tail_star_indirect': "token L R N B; start s; s: e; e: L f R | N B*; f: e;",
 'list_sep': "token A C L R Ws; skip Ws; start s; s: l; l: L [x (C x)*] R; x: A | l;",
 'two_skips': "token A B C Ws Cm; skip Ws Cm; start s; s: (A B)* C;",
 # ---- parts
